@@ -26,6 +26,17 @@ def call(repo, modname, name, *args, **kwargs):
     return v
 
 
+def call_s(repo, modname, name, *args, **kwargs):
+    """call() with the module-level suffix trie replaced by the miniature one (see with_small_suffix_list)"""
+    saved = getattr(repo, "global_overrides", None)
+    if not saved:
+        repo.global_overrides = with_small_suffix_list(repo)
+    try:
+        return call(repo, modname, name, *args, **kwargs)
+    finally:
+        repo.global_overrides = saved or {}
+
+
 def expect(repo, modname, name, rows, **kwargs):
     """cells callable for ctx.ob: rows = [(argument, expected value | predicate)]"""
     def cells():
